@@ -16,6 +16,7 @@ Inductive rop :=
 | RDelete (p : pos)
 | RMove (f t : pos)
 | RReload (bl : list (pos * list elem))
+| RLabels (ls : list (N * list elem))
 | RMerge (t : N) (m : list N)
 | RCleave (t c : N) (reg : list iv)
 | RSplit (o n : N) (blocks : list pos) (reg : list iv)
@@ -31,6 +32,7 @@ Inductive obsitem :=
 | OCounts (i : N) (ls : list N) (cs : list Z)
 | ORegion (off size : pos) (es : list elem)
 | OBlocks (off size : pos) (bl : list (pos * list elem))
+| ORoi (spans : list (Z * Z * Z * Z)) (es : list elem)   (* roi/<name>: spans (z, y, x0, x1) in block coordinates *)
 | OTop (i : N) (n : Z) (r : list (N * Z))
 | OThr (i : N) (thr off n : Z) (r : list (N * Z)).
 
@@ -64,6 +66,7 @@ Definition to_op (bs ext : Z) (bd : pos -> N) (r : rop) : op :=
   | RDelete p => ODelete p
   | RMove f t => OMove f t
   | RReload bl => OReload bl
+  | RLabels ls => OLabels ls
   | RMerge t m => LMerge t m
   | RCleave t c reg => LCleave t c (in_reg ext reg)
   | RSplit o n bl reg => LSplit o n bl (in_reg ext reg)
@@ -97,6 +100,12 @@ Definition box_blocks (bs : Z) (off size : pos) (b : pos) : bool :=
   (pX lo <=? pX b) && (pX b <=? pX hi) && (pY lo <=? pY b) && (pY b <=? pY hi) && (pZ lo <=? pZ b) && (pZ b <=? pZ hi).
 Definition group_blocks (bs : Z) (G : list elem) : list (pos * list elem) :=
   map (fun b => (b, filter (in_block (bs3 bs) b) G)) (nodupb pos_eqb (map (fun e => blockOf (bs3 bs) (e_pos e)) G)).
+Definition in_span (bs : Z) (sp : Z * Z * Z * Z) (e : elem) : bool :=
+  let b := blockOf (bs3 bs) (e_pos e) in
+  let '(z, y, x0, x1) := sp in (pZ b =? z) && (pY b =? y) && (x0 <=? pX b) && (pX b <=? x1).
+(* GetROISynapses appends the elements of every span's blocks (no screening by voxel) *)
+Definition roi_elems (bs : Z) (spans : list (Z * Z * Z * Z)) (G : list elem) : list elem :=
+  canon (flat_map (fun sp => filter (in_span bs sp) G) spans).
 Definition idxs : list N := [n_sz_PostSyn; n_sz_PreSyn; n_sz_Gap; n_sz_Note; n_sz_AllSyn].
 (* ranking used by top / threshold: size descending, then label ascending; zero counts are absent *)
 Fixpoint insert_rank (x : N * Z) (l : list (N * Z)) : list (N * Z) :=
@@ -129,6 +138,7 @@ Definition answer_ok (bs : Z) (s : state) (o : obsitem) : bool :=
   | OCounts i ls cs => list_eqb Z.eqb cs (map (fun l => cget (cnt s) (i, l)) ls)
   | ORegion off size es => elems_eqb es (canon (filter (fun e => in_box off size (e_pos e)) (all_elems (blk s))))
   | OBlocks off size bl => blocks_eqb bl (filter (fun be => box_blocks bs off size (fst be)) (m_all s))
+  | ORoi spans es => elems_eqb es (roi_elems bs spans (all_elems (blk s)))
   | OTop i n r => lz_eqb r (top_of (rank (fun l => cget (cnt s) (i, l)) (m_labels s)) n)
   | OThr i thr off n r => lz_eqb r (thr_of (rank (fun l => cget (cnt s) (i, l)) (m_labels s)) thr off n)
   end.
@@ -203,6 +213,7 @@ Definition spec_item (bs ext : Z) (tb : list obsitem) (o : obsitem) : nat :=
   | ORegion off size es => if elems_eqb es (canon (filter (fun e => in_box off size (e_pos e)) G)) then O else 7%nat
   | OBlocks off size bl =>
     if blocks_eqb bl (filter (fun be => box_blocks bs off size (fst be)) (canon_blocks (group_blocks bs G))) then O else 7%nat
+  | ORoi spans es => if elems_eqb es (roi_elems bs spans G) then O else 7%nat
   | OTop i n r => if lz_eqb r (top_of (rank (cf i) (filter (fun l => negb (l =? 0)%N) labels)) n) then O else 6%nat
   | OThr i thr off n r => if lz_eqb r (thr_of (rank (cf i) (filter (fun l => negb (l =? 0)%N) labels)) thr off n) then O else 6%nat
   end.
@@ -218,7 +229,8 @@ Definition rel_ok (Gb Ga : list elem) (r : rop) (cls : N) : bool :=
   match r with
   | RDelete p => forallb (fun q => negb (mutual Gb p q && negb (has_pos p q))
                                    || existsb (fun q' => has_pos (e_pos q) q' && negb (refs p q')) Ga) Gb
-  | RMove f t => forallb (fun q => negb (mutual Gb f q && negb (has_pos f q))
+  | RMove f t => pos_eqb f t ||   (* source = destination: accepted, nothing to maintain *)
+                 forallb (fun q => negb (mutual Gb f q && negb (has_pos f q))
                                    || existsb (fun q' => has_pos (e_pos q) q' && negb (refs f q') && refs t q') Ga) Gb
   | _ => true
   end.
@@ -266,6 +278,7 @@ Definition zPost := RPost.
 Definition zDelete (x y z : Z) := RDelete (x, y, z).
 Definition zMove (x y z x' y' z' : Z) := RMove (x, y, z) (x', y', z').
 Definition zReload := RReload.
+Definition zLabels (ls : list (Z * list elem)) := RLabels (map (fun x => (Z.to_N (fst x), snd x)) ls).
 Definition zMerge (t : Z) (m : list Z) := RMerge (Z.to_N t) (map Z.to_N m).
 Definition zCleave (t c : Z) (reg : list iv) := RCleave (Z.to_N t) (Z.to_N c) reg.
 Definition zSplit (o n : Z) (blocks : list pos) (reg : list iv) := RSplit (Z.to_N o) (Z.to_N n) blocks reg.
@@ -279,6 +292,7 @@ Definition zCount (l : Z) := OCount (Z.to_N l).
 Definition zCounts (i : Z) (ls : list Z) := OCounts (Z.to_N i) (map Z.to_N ls).
 Definition zRegion := ORegion.
 Definition zBlocks := OBlocks.
+Definition zRoi := ORoi.
 Definition zTop (i n : Z) (r : list (Z * Z)) := OTop (Z.to_N i) n (zlz r).
 Definition zThr (i thr off n : Z) (r : list (Z * Z)) := OThr (Z.to_N i) thr off n (zlz r).
 Definition zStep (r : rop) (cls : Z) (os : list obsitem) : rop * N * list obsitem := (r, Z.to_N cls, os).
